@@ -335,7 +335,8 @@ def run(chk: common.Check):
               "cut-offs for every operation list, finite facts of the shipped file by vm_compute on the regenerated text. Correspondence: "
               "shipped file (all key/type pairs, every dictionary, list and scalar), shuffled shipped file, random files (repeated rows, "
               "reversed duplicate pairs, defaults, overrides, malformed lines); squared cut-offs on random operation sequences over two "
-              "Parameters instances.  distinct = distinct files"),
+              "Parameters instances.  distinct = distinct files"
+              " Added in rounds 5-6: look-ups interleaved with parsing, a matrix row stated twice."),
         assumptions=["model/Params.v is hand-written; tied by the correspondence of this run",
                      "numeric tokens are plain decimals (float() accepts more: exponents, inf, nan, underscores - not generated)",
                      "lookup_types excludes BBN/BBC (filtered before the look-up), ION (scored separately) and the Marvin-only classes"],
